@@ -262,6 +262,29 @@ fn crafted(out: &mut Vec<String>) {
 pub fn gen_pb(rng: &mut Rng, thorough: bool, out: &mut Vec<String>) {
     crafted(out);
     let rt = tokio::runtime::Builder::new_current_thread().enable_all().build().unwrap();
+    // the smallest directories: one or two labels, one or two epochs (the root has an empty child)
+    for cfg in ["wv1", "exp"] {
+        for nusers in [1usize, 2] {
+            out.push(format!("reset {cfg}"));
+            out.push(format!("ck {}", key_hex(&rt)));
+            let pool = user_pool(rng, nusers);
+            for u in &pool {
+                for v in 1..=4u64 {
+                    for fresh in [true, false] {
+                        out.push(format!("vrf {} {} {} {}", hex_or_dash(u), if fresh { "F" } else { "S" }, v, show_label(&vrf_label(&rt, cfg, u, fresh, v))));
+                    }
+                }
+            }
+            for ep in 1..=2u64 {
+                out.push(format!("dir.publish {}", pool.iter().map(|u| format!("{} {}", hex_or_dash(u), hex_or_dash(&rng.bytes(3)))).collect::<Vec<_>>().join(" ")));
+                for u in &pool {
+                    out.push(format!("o.pb.rt.lookup {}", hex_or_dash(u)));
+                    out.push(format!("o.pb.rt.history {}", hex_or_dash(u)));
+                }
+                out.push(format!("o.pb.rt.audit 0 {ep}"));
+            }
+        }
+    }
     let ncases = if thorough { 6 } else { 2 };
     for case in 0..ncases {
         let cfg = if case % 2 == 0 { "wv1" } else { "exp" };
@@ -296,6 +319,17 @@ pub fn gen_pb(rng: &mut Rng, thorough: bool, out: &mut Vec<String>) {
                 if eh.0 as usize == roots.len() {
                     roots.push(eh.1);
                 }
+            }
+            // after EVERY publish (so also on the smallest trees, where the root lacks a child and proofs carry the
+            // configuration's empty label): honest proofs survive the encoding unchanged
+            for u in &pool {
+                out.push(format!("o.pb.rt.lookup {}", hex_or_dash(u)));
+                out.push(format!("o.pb.rt.history {}", hex_or_dash(u)));
+            }
+            let cur = roots.len() as u64 - 1;
+            if cur >= 1 {
+                out.push(format!("o.pb.rt.audit 0 {cur}"));
+                out.push(format!("o.pb.rt.audit {} {cur}", cur - 1));
             }
         }
         let cur = roots.len() as u64 - 1;
